@@ -153,7 +153,7 @@ fn parse_overlay(src: &str, fname: &str) -> (String, Vec<Dir>) {
                             "sig" | "entry" | "exit" | "fields" | "attr" => {
                                 cur = Some(Section { kind, ord: 0, snippet, arg: String::new(), text: String::new(), line: i + 2 });
                             }
-                            "before" | "after" | "inv" | "body-begin" | "body-end" | "closure" => {
+                            "before" | "after" | "inv" | "body-begin" | "body-end" | "closure" | "iter" => {
                                 let ord: usize = w.next().and_then(|s| s.parse().ok()).unwrap_or_else(|| {
                                     die(2, &format!("OVERLAY-SYNTAX {}:{}: ordinal expected", fname, i + 1))
                                 });
@@ -336,6 +336,7 @@ struct StmtInfo {
     end: usize,
     norm: String,
     depth: usize,
+    for_expr: Option<usize>, // byte offset of the iterator expression of a `for` statement
     // loop info
     loop_body: Option<(usize, usize)>, // byte offset of '{' and of '}' of the loop body
 }
@@ -368,7 +369,9 @@ struct Rules {
     drop_attr: Vec<String>,
     raw_ident: Vec<String>,
     calls: Vec<(String, String)>,       // normalised callee path -> replacement path
-    callx: Vec<(String, String)>,       // normalised callee path -> replacement of the whole call expression
+    callx: Vec<(String, String)>,
+    rev_range: bool,
+    after_method: Vec<(String, String)>, // method name -> ghost template ($idx = last index expression of the receiver, $recv = receiver)       // normalised callee path -> replacement of the whole call expression
     pub_super: bool,
     macro_call: Vec<(String, String)>,  // macro name -> fn name (args kept verbatim)
 }
@@ -487,7 +490,11 @@ impl<'a, 'ast> Visit<'ast> for FnScan<'a> {
             syn::Stmt::Expr(e, _) => loop_body_of(e),
             _ => None,
         };
-        self.stmts.push(StmtInfo { start, end, norm: norm.trim().to_string(), loop_body, depth: self.depth });
+        let for_expr = match s {
+            syn::Stmt::Expr(syn::Expr::ForLoop(f), _) => Some(brange(&*f.expr).0),
+            _ => None,
+        };
+        self.stmts.push(StmtInfo { start, end, norm: norm.trim().to_string(), loop_body, depth: self.depth, for_expr });
 
         // R7 quiet-print elision: `if !self.quiet { println!…; }` with print-only body and no else
         if self.rules.quiet_print {
@@ -523,6 +530,74 @@ impl<'a, 'ast> Visit<'ast> for FnScan<'a> {
                 kept.push(self.src[start..end].to_string());
                 self.edits.push(Edit { pos: start, end, text, rule: "R4:after-call".into(), kept, oline: 0, seq: self.seq });
                 return;
+            }
+        }
+        // R13: range `for` loops are desugared to `while` loops over an explicit cursor (independent of vstd's iterator specs):
+        //   for i in A..B { body }          ->  let mut i_cur = A; let i_end = B; while i_cur < i_end { let i = i_cur; i_cur += 1; body }
+        //   for i in (A..B).rev() { body }  ->  let i_lo = A; let mut i_cur = B; while i_cur > i_lo { i_cur -= 1; let i = i_cur; body }
+        if self.rules.rev_range {
+            if let syn::Stmt::Expr(syn::Expr::ForLoop(fl), _) = s {
+                if let syn::Pat::Ident(pi) = &*fl.pat {
+                    let (range_expr, rev): (Option<&syn::Expr>, bool) = match &*fl.expr {
+                        syn::Expr::MethodCall(mc) if mc.method == "rev" && mc.args.is_empty() => {
+                            let inner = match &*mc.receiver {
+                                syn::Expr::Paren(p) => &*p.expr,
+                                e => e,
+                            };
+                            (Some(inner), true)
+                        }
+                        e @ syn::Expr::Range(_) => (Some(e), false),
+                        _ => (None, false),
+                    };
+                    if let Some(syn::Expr::Range(r)) = range_expr {
+                        if let (Some(a), Some(b), syn::RangeLimits::HalfOpen(_)) = (&r.start, &r.end, &r.limits) {
+                            let (a0, a1) = brange(&**a);
+                            let (b0, b1) = brange(&**b);
+                            let v = pi.ident.to_string();
+                            let lo = self.src[a0..a1].to_string();
+                            let hi = self.src[b0..b1].to_string();
+                            let body_open = fl.body.brace_token.span.open().byte_range().start;
+                            let (head_text, first) = if rev {
+                                (format!("let {v}_lo = {lo}; let mut {v}_cur = {hi}; while {v}_cur > {v}_lo ", v = v, hi = hi, lo = lo), format!(" {v}_cur -= 1; let {v} = {v}_cur; ", v = v))
+                            } else {
+                                (format!("let mut {v}_cur = {lo}; let {v}_end = {hi}; while {v}_cur < {v}_end ", v = v, hi = hi, lo = lo), format!(" let {v} = {v}_cur; {v}_cur += 1; ", v = v))
+                            };
+                            self.push_edit(start, body_open, head_text, "R13:range-for-loop", vec![lo, hi, v.clone()]);
+                            self.seq += 1;
+                            self.edits.push(Edit { pos: body_open + 1, end: body_open + 1, text: first, rule: "R13:range-for-loop".into(), kept: vec![], oline: 0, seq: 0 });
+                            self.visit_block(&fl.body);
+                            return;
+                        }
+                    }
+                }
+            }
+        }
+        // R4b after-method: a statement `recv.m(..);`, `x = recv.m(..);` or `let x = recv.m(..);` is followed by a ghost record
+        if !self.rules.after_method.is_empty() {
+            let top: Option<&syn::Expr> = match s {
+                syn::Stmt::Expr(syn::Expr::Assign(a), Some(_)) => Some(&*a.right),
+                syn::Stmt::Expr(e, Some(_)) => Some(e),
+                syn::Stmt::Local(l) => l.init.as_ref().map(|i| &*i.expr),
+                _ => None,
+            };
+            if let Some(syn::Expr::MethodCall(m)) = top {
+                let name = m.method.to_string();
+                if let Some((_, tmpl)) = self.rules.after_method.iter().find(|(n, _)| *n == name).cloned() {
+                    let (rs, re) = brange(&*m.receiver);
+                    let recv = self.src[rs..re].to_string();
+                    let idx = match &*m.receiver {
+                        syn::Expr::Index(ix) => {
+                            let (a, b) = brange(&*ix.index);
+                            self.src[a..b].to_string()
+                        }
+                        _ => String::new(),
+                    };
+                    let text = format!("{} {}", &self.src[start..end], tmpl.replace("$idx", &idx).replace("$recv", &recv));
+                    self.seq += 1;
+                    // nested rewrites inside the statement are not combined with this rule: the statement is kept verbatim
+                    self.edits.push(Edit { pos: start, end, text, rule: "R4:after-method".into(), kept: vec![self.src[start..end].to_string()], oline: 0, seq: self.seq });
+                    return;
+                }
             }
         }
         syn::visit::visit_stmt(self, s);
@@ -866,6 +941,7 @@ fn main() {
                     "panic" => rules.panic = rest != "off",
                     "quiet-print" => rules.quiet_print = rest != "off",
                     "position" => rules.position = rest != "off",
+                    "range-for" | "rev-range" => rules.rev_range = rest != "off",
                     "pub-restricted" => rules.pub_super = rest != "off",
                     "drop-attr" => rules.drop_attr = rest.split_whitespace().map(|s| s.to_string()).collect(),
                     "raw-ident" => rules.raw_ident = rest.split_whitespace().map(|s| s.to_string()).collect(),
@@ -885,6 +961,15 @@ fn main() {
                         rules.macro_call.retain(|(n, _)| *n != a);
                         if !b.is_empty() {
                             rules.macro_call.push((a, b));
+                        }
+                    }
+                    "after-method" => {
+                        let mut p = rest.splitn(2, "=>");
+                        let a = p.next().unwrap_or("").trim().to_string();
+                        let b = p.next().unwrap_or("").trim().to_string();
+                        rules.after_method.retain(|(n, _)| *n != a);
+                        if !b.is_empty() {
+                            rules.after_method.push((a, b));
                         }
                     }
                     "call-expr" => {
@@ -1331,6 +1416,13 @@ fn main() {
                             } else {
                                 edits.push(mk(pos, sec.text.clone(), seq));
                             }
+                        }
+                        "iter" => {
+                            let k = resolve(sec);
+                            let pos = stmts[k].for_expr.unwrap_or_else(|| {
+                                die(2, &format!("LOST-ANCHOR unit={} fn={} anchor=@iter {} (overlay line {}): statement is not a for loop", unit, fd.path, sec.ord, sec.line))
+                            });
+                            edits.push(mk(pos, format!("{}: ", sec.arg.trim()), seq));
                         }
                         "inv" | "body-begin" | "body-end" => {
                             let k = resolve(sec);
